@@ -173,6 +173,7 @@ type LState struct {
 	held     map[string]string // name -> "W" | "R"
 	deferred []string          // "U:name" / "R:name" in registration order
 	alias    map[string]string // phi register path -> root path on the path taken
+	overflow string            // set when a loop accumulates instances of one acquire site (the path is cut)
 }
 
 func (s *LState) clone() *LState {
@@ -184,6 +185,7 @@ func (s *LState) clone() *LState {
 		n.alias[k] = v
 	}
 	n.deferred = append([]string(nil), s.deferred...)
+	n.overflow = s.overflow
 	return n
 }
 
@@ -209,7 +211,7 @@ func (s *LState) root(path string) string {
 			if path == a {
 				path = r
 				changed = true
-			} else if strings.HasPrefix(path, a+".") {
+			} else if hasPathPrefix(path, a) {
 				path = r + path[len(a):]
 				changed = true
 			}
@@ -224,7 +226,13 @@ func (s *LState) root(path string) string {
 // killName renames every held lock / alias target / deferred release rooted at key to a fresh name.
 func (s *LState) killName(key string) {
 	hit := false
-	match := func(p string) bool { return p == key || strings.HasPrefix(p, key+".") }
+	match := func(p string) bool { return hasPathPrefix(p, key) }
+	// the register now denotes a new value: aliases *of* it are stale
+	for a := range s.alias {
+		if match(a) {
+			delete(s.alias, a)
+		}
+	}
 	for h := range s.held {
 		if match(h) {
 			hit = true
@@ -239,14 +247,19 @@ func (s *LState) killName(key string) {
 		return
 	}
 	fresh := key + "'"
-	for {
+	for n := 0; ; n++ {
 		clash := false
 		for h := range s.held {
-			if h == fresh || strings.HasPrefix(h, fresh+".") {
+			if hasPathPrefix(h, fresh) {
 				clash = true
 			}
 		}
 		if !clash {
+			break
+		}
+		if n >= 2 {
+			// the same acquire site is held three times over: resources accumulate in a loop
+			s.overflow = key
 			break
 		}
 		fresh += "'"
@@ -300,13 +313,20 @@ type LockWalk struct {
 	// Effects of calls to repo functions that are not balanced (summaries): returns (acquire, release)
 	// lists of paths in the caller's naming; nil = balanced / irrelevant.
 	CallEffect func(c ssa.CallInstruction, st *LState) (acq map[string]string, rel []string)
-	MaxStates  int
+	// Classify overrides the lock table (resource typestate rules supply their own acquire/release set).
+	Classify func(c ssa.CallInstruction, st *LState) (lockOp, string)
+	// PathFn overrides the canonical naming of values (defaults to the lock table's lockPath).
+	PathFn func(v ssa.Value) string
+	// OnEdge may refine the state carried along the edge b -> b.Succs[succ] (e.g. drop a resource on the
+	// edge on which its pointer is nil); returning false prunes the edge.
+	OnEdge    func(b *ssa.BasicBlock, succ int, st *LState) bool
+	MaxStates int
 	States     int
 	Truncated  bool
 }
 
 func (lw *LockWalk) Run() {
-	lt := lw.W.LockTable()
+	_ = lw.W.LockTable()
 	if len(lw.Fn.Blocks) == 0 {
 		return
 	}
@@ -362,7 +382,12 @@ func (lw *LockWalk) Run() {
 				if pi < 0 || pi >= len(phi.Edges) {
 					continue
 				}
-				src := st.root(lt.lockPath(phi.Edges[pi]))
+				var src string
+				if c, isConst := phi.Edges[pi].(*ssa.Const); isConst {
+					src = "const:" + c.String()
+				} else {
+					src = st.root(lw.pathOf(phi.Edges[pi]))
+				}
 				newAlias["v:"+phi.Name()] = src
 			}
 			for k, v := range newAlias {
@@ -376,7 +401,7 @@ func (lw *LockWalk) Run() {
 			for k, v := range st.alias {
 				keep := false
 				for h := range st.held {
-					if h == v || strings.HasPrefix(h, v+".") {
+					if hasPathPrefix(h, v) || hasPathPrefix(v, h) {
 						keep = true
 					}
 				}
@@ -385,7 +410,7 @@ func (lw *LockWalk) Run() {
 						keep = true
 					}
 				}
-				if !keep && !strings.HasPrefix(k, "c:") {
+				if !keep && !strings.HasPrefix(k, "c:") && !strings.HasPrefix(v, "const:") {
 					delete(st.alias, k)
 				}
 			}
@@ -410,12 +435,17 @@ func (lw *LockWalk) Run() {
 					st.killName("v:" + v.Name())
 				}
 			}
+			if st.overflow != "" {
+				issue("accumulates-in-loop", in, st.overflow, st)
+				dead = true
+				break
+			}
 			if lw.OnInstr != nil {
 				lw.OnInstr(in, st)
 			}
 			switch x := in.(type) {
 			case *ssa.Defer:
-				op, name := lt.classify(x)
+				op, name := lw.classify(x, st)
 				switch op {
 				case opUnlock:
 					st.deferred = append(st.deferred, "U:"+st.root(name))
@@ -435,7 +465,10 @@ func (lw *LockWalk) Run() {
 				if al, ok := x.Addr.(*ssa.Alloc); ok {
 					k := "c:" + al.Name()
 					delete(st.alias, k)
-					src := st.root(lt.lockPath(x.Val))
+					src := st.root(lw.pathOf(x.Val))
+					if _, isConst := x.Val.(*ssa.Const); isConst {
+						src = "const:" + x.Val.String()
+					}
 					if src != k {
 						st.alias[k] = src
 					}
@@ -443,7 +476,7 @@ func (lw *LockWalk) Run() {
 			case *ssa.Go:
 				// the spawned goroutine has its own lock state
 			case *ssa.Call:
-				op, name := lt.classify(x)
+				op, name := lw.classify(x, st)
 				switch op {
 				case opLock, opRLock:
 					r := st.root(name)
@@ -503,9 +536,30 @@ func (lw *LockWalk) Run() {
 			if cut {
 				continue
 			}
-			work = append(work, item{succ, it.b, st})
+			nst := st
+			if lw.OnEdge != nil {
+				nst = st.clone()
+				if !lw.OnEdge(it.b, s, nst) {
+					continue
+				}
+			}
+			work = append(work, item{succ, it.b, nst})
 		}
 	}
+}
+
+func (lw *LockWalk) pathOf(v ssa.Value) string {
+	if lw.PathFn != nil {
+		return lw.PathFn(v)
+	}
+	return lw.W.LockTable().lockPath(v)
+}
+
+func (lw *LockWalk) classify(c ssa.CallInstruction, st *LState) (lockOp, string) {
+	if lw.Classify != nil {
+		return lw.Classify(c, st)
+	}
+	return lw.W.LockTable().classify(c)
 }
 
 // closureEffect summarises a call of a closure defined in the walked function: the lock operations
@@ -532,7 +586,7 @@ func (lw *LockWalk) closureEffect(c *ssa.Call) (acq map[string]string, rel []str
 	translate := func(p string) string {
 		for i, fv := range fn.FreeVars {
 			pre := "fv:" + fv.Name()
-			if p == pre || strings.HasPrefix(p, pre+".") {
+			if hasPathPrefix(p, pre) {
 				if i < len(bindings) {
 					return lt.lockPath(bindings[i]) + p[len(pre):]
 				}
@@ -547,7 +601,7 @@ func (lw *LockWalk) closureEffect(c *ssa.Call) (acq map[string]string, rel []str
 			if !isCall {
 				continue
 			}
-			op, name := lt.classify(call)
+			op, name := lw.classifyInClosure(call)
 			if op == opNone {
 				continue
 			}
@@ -586,4 +640,20 @@ func straightLine(fn *ssa.Function) bool {
 		}
 	}
 	return true
+}
+
+// classifyInClosure classifies a call inside a closure body (no state available: a pure table lookup).
+func (lw *LockWalk) classifyInClosure(c *ssa.Call) (lockOp, string) {
+	if lw.Classify != nil {
+		return lw.Classify(c, nil)
+	}
+	return lw.W.LockTable().classify(c)
+}
+
+// hasPathPrefix: p is pre itself or an extension of it (field selection '.' or derived id '#').
+func hasPathPrefix(p, pre string) bool {
+	if p == pre {
+		return true
+	}
+	return strings.HasPrefix(p, pre) && len(p) > len(pre) && (p[len(pre)] == '.' || p[len(pre)] == '#')
 }
